@@ -897,14 +897,14 @@ func runNotHeld(cfg waitCfg) (res waitResult) {
 			return
 		}
 		res.Parked++
-		p, _ := tryOp(A, holderRelease)
+		p, blocked := tryOp(A, holderRelease)
 		waitQuiescent()
 		if p != "" {
-			res.viol(fpBase+"/holder-release-panics", "the rightful holder's release panics after the foreign unlock: %s", p)
+			res.viol("notheld/rightful-release-panics-after-mismatched-unlock", "the rightful holder's release panics after the mismatched unlock (%s): %s", fpBase, p)
 			return
 		}
-		if C.Busy() {
-			res.viol(fpBase+"/probe-never-granted", "%s is never granted after the holder released", what)
+		if blocked || C.Busy() {
+			res.viol("notheld/rightful-release-blocks-after-mismatched-unlock", "after the mismatched unlock (%s) the rightful holder's release is parked for ever = %v, the conflicting %s still parked = %v: the mutex is unusable", fpBase, blocked, what, C.Busy())
 			return
 		}
 		res.Returned++
@@ -956,9 +956,8 @@ func runNotHeld(cfg waitCfg) (res waitResult) {
 			return
 		}
 		res.Checks++
-		if p == "" { // a panic is accepted as it is; without one the read lock must still be held
-			probe("Lock()", sm.Lock, sm.Unlock, sm.RUnlock, "notheld/starving/Unlock-while-read-held")
-		}
+		// panic or not: the read lock must still be held and everything must go on working
+		probe("Lock()", sm.Lock, sm.Unlock, sm.RUnlock, "notheld/starving/Unlock-while-read-held")
 	case "starving/RUnlock-while-write-held":
 		tryOp(A, sm.Lock)
 		p, pk := tryOp(B, sm.RUnlock)
@@ -966,9 +965,7 @@ func runNotHeld(cfg waitCfg) (res waitResult) {
 			return
 		}
 		res.Checks++
-		if p == "" {
-			probe("RLock()", sm.RLock, sm.RUnlock, sm.Unlock, "notheld/starving/RUnlock-while-write-held")
-		}
+		probe("RLock()", sm.RLock, sm.RUnlock, sm.Unlock, "notheld/starving/RUnlock-while-write-held")
 	case "starving/RUnlock-once-too-often":
 		tryOp(A, sm.RLock)
 		tryOp(A, sm.RLock)
@@ -1001,14 +998,7 @@ func runNotHeld(cfg waitCfg) (res waitResult) {
 		if !mustHold(p, pk, "DAGMutex.Unlock(1) while another goroutine holds RLock(1)") {
 			return
 		}
-		if p == "" {
-			probe("Lock(1)", func() { dm.Lock(1) }, func() { dm.Unlock(1) }, func() { dm.RUnlock(1) }, "notheld/dag/Unlock-while-read-held-by-other")
-		} else if _, parked := tryOp(C, func() { dm.Lock(1) }); !parked {
-			// the panic is accepted, but the original holder is still inside: nothing conflicting may be granted
-			res.viol("notheld/dag/Unlock-while-read-held-by-other/conflicting-lock-granted-after-panic", "after the mismatched Unlock(1) panicked, Lock(1) is granted although the reader still holds entity 1")
-		} else {
-			res.Parked++
-		}
+		probe("Lock(1)", func() { dm.Lock(1) }, func() { dm.Unlock(1) }, func() { dm.RUnlock(1) }, "notheld/dag/Unlock-while-read-held-by-other")
 		res.Checks++
 	case "dag/RUnlock-while-write-held-by-other":
 		tryOp(A, func() { dm.Lock(1) })
@@ -1016,12 +1006,21 @@ func runNotHeld(cfg waitCfg) (res waitResult) {
 		if !mustHold(p, pk, "DAGMutex.RUnlock(1) while another goroutine holds Lock(1)") {
 			return
 		}
-		if p == "" {
-			probe("RLock(1)", func() { dm.RLock(1) }, func() { dm.RUnlock(1) }, func() { dm.Unlock(1) }, "notheld/dag/RUnlock-while-write-held-by-other")
-		} else if _, parked := tryOp(C, func() { dm.Lock(1) }); !parked {
-			res.viol("notheld/dag/RUnlock-while-write-held-by-other/conflicting-lock-granted-after-panic", "after the mismatched RUnlock(1) panicked, a second Lock(1) is granted although the first writer still holds entity 1")
-		} else {
-			res.Parked++
+		probe("RLock(1)", func() { dm.RLock(1) }, func() { dm.RUnlock(1) }, func() { dm.Unlock(1) }, "notheld/dag/RUnlock-while-write-held-by-other")
+		if len(res.Findings) == 0 { // and a second writer must wait for the first one
+			tryOp(A, func() { dm.Lock(1) })
+			tryOp(B, func() { dm.RUnlock(1) })
+			if _, parked := tryOp(C, func() { dm.Lock(1) }); !parked {
+				res.viol("notheld/dag/RUnlock-while-write-held-by-other/conflicting-lock-granted-after-panic", "after the mismatched RUnlock(1), a second Lock(1) is granted although the first writer still holds entity 1")
+			} else {
+				tryOp(A, func() { dm.Unlock(1) })
+				waitQuiescent()
+				if C.Busy() {
+					res.viol("notheld/rightful-release-blocks-after-mismatched-unlock", "after the mismatched RUnlock(1) the second Lock(1) is never granted although the first writer released")
+				} else {
+					tryOp(C, func() { dm.Unlock(1) })
+				}
+			}
 		}
 		res.Checks++
 	case "dag/Unlock-while-two-readers":
